@@ -17,6 +17,14 @@ set_option linter.unusedSimpArgs false
 
 variable {K : Type} [Field K] [LinearOrder K] [IsStrictOrderedRing K]
 
+/-- Closes a tie goal: by `rfl` when the generated text is literally the model's, otherwise (a harmless rewrite of
+the Go source: commuted operands, re-associated sums, `a - b` for `a + -b`, …) by unfolding both sides and `ring`
+per component, with `math.Sqrt` applications as atoms. -/
+macro "tie" : tactic => `(tactic| first
+  | rfl
+  | (simp only [numerical.Matrix2_Add, numerical.Matrix2_Det, numerical.Matrix2_Inverse, numerical.Matrix2_InvertInPlace, numerical.Matrix2_InvertInPlaceDet, numerical.Matrix2_Mul, numerical.Matrix2_MulColumn, numerical.Matrix2_MulColumnInv, numerical.Matrix2_Scale, numerical.Matrix2_Transpose, numerical.Matrix3_Add, numerical.Matrix3_Det, numerical.Matrix3_Inverse, numerical.Matrix3_InvertInPlace, numerical.Matrix3_InvertInPlaceDet, numerical.Matrix3_Mul, numerical.Matrix3_MulColumn, numerical.Matrix3_MulColumnInv, numerical.Matrix3_Scale, numerical.Matrix3_Transpose, numerical.Matrix4_Det, numerical.Matrix4_Mul, numerical.Matrix4_Scale, numerical.Matrix4_Transpose, numerical.Vec2_Add, numerical.Vec2_Dist, numerical.Vec2_DistSquared, numerical.Vec2_Dot, numerical.Vec2_Norm, numerical.Vec2_Normalize, numerical.Vec2_ProjectOut, numerical.Vec2_Scale, numerical.Vec2_Sub, numerical.Vec2_Sum, numerical.Vec3_Add, numerical.Vec3_Cross, numerical.Vec3_Dist, numerical.Vec3_DistSquared, numerical.Vec3_Dot, numerical.Vec3_Norm, numerical.Vec3_Normalize, numerical.Vec3_ProjectOut, numerical.Vec3_Scale, numerical.Vec3_Sub, numerical.Vec3_Sum, numerical.Vec4_Add, numerical.Vec4_Dist, numerical.Vec4_DistSquared, numerical.Vec4_Dot, numerical.Vec4_Norm, numerical.Vec4_Normalize, numerical.Vec4_ProjectOut, numerical.Vec4_Scale, numerical.Vec4_Sub, numerical.Vec4_Sum, M2.det, M2.scale, M2.invertDet, M2.inverse, M2.mulColumn, M2.mulColumnInv, M2.mul, M2.add, M2.transpose, M2.gram, M3.det, M3.scale, M3.adj, M3.invertDet, M3.inverse, M3.mulColumn, M3.mulColumnInv, M3.mul, M3.add, M3.transpose, M3.gram, M4.det, M4.mul, M4.transpose, M4.scale, M4.gram, V2.add, V2.sub, V2.scale, V2.dot, V2.sum, V2.distSquared, V2.norm, V2.dist, V2.normalize, V2.projectOut, V3.add, V3.sub, V3.scale, V3.dot, V3.sum, V3.distSquared, V3.norm, V3.dist, V3.normalize, V3.projectOut, V4.add, V4.sub, V4.scale, V4.dot, V4.sum, V4.distSquared, V4.norm, V4.dist, V4.normalize, V4.projectOut, V3.cross, Nat.cast_one, Nat.cast_zero, zero_add] <;>
+      first | rfl | ring | (congr 1 <;> first | rfl | ring) | (congr 1 <;> ring_nf)))
+
 @[reducible] def gm2 (m : M2 K) : numerical.Matrix2 K := ⟨m.m0, m.m1, m.m2, m.m3⟩
 @[reducible] def gv2 (v : V2 K) : numerical.Vec2 K := ⟨v.x, v.y⟩
 @[reducible] def gm3 (m : M3 K) : numerical.Matrix3 K := ⟨m.m0, m.m1, m.m2, m.m3, m.m4, m.m5, m.m6, m.m7, m.m8⟩
@@ -24,30 +32,90 @@ variable {K : Type} [Field K] [LinearOrder K] [IsStrictOrderedRing K]
 @[reducible] def gm4 (x : M4 K) : numerical.Matrix4 K :=
   ⟨x.a, x.b, x.c, x.d, x.e, x.f, x.g, x.h, x.i, x.j, x.k, x.l, x.m, x.n, x.o, x.p⟩
 
-theorem det2 (m : M2 K) : numerical.Matrix2_Det (gm2 m) = m.det := rfl
-theorem mul2 (m n : M2 K) : numerical.Matrix2_Mul (gm2 m) (gm2 n) = gm2 (m.mul n) := rfl
-theorem add2 (m n : M2 K) : numerical.Matrix2_Add (gm2 m) (gm2 n) = gm2 (m.add n) := by
-  simp [numerical.Matrix2_Add, M2.add]
-theorem transpose2 (m : M2 K) : numerical.Matrix2_Transpose (gm2 m) = gm2 m.transpose := rfl
-theorem mulColumn2 (m : M2 K) (c : V2 K) : numerical.Matrix2_MulColumn (gm2 m) (gv2 c) = gv2 (m.mulColumn c) := rfl
-theorem inverse2 (m : M2 K) : numerical.Matrix2_Inverse (gm2 m) = gm2 m.inverse := by
-  simp [numerical.Matrix2_Inverse, numerical.Matrix2_InvertInPlace, numerical.Matrix2_InvertInPlaceDet,
-    numerical.Matrix2_Scale, numerical.Matrix2_Det, M2.inverse, M2.invertDet, M2.scale, M2.det]
+theorem det2 (m : M2 K) : numerical.Matrix2_Det (gm2 m) = m.det := by tie
+theorem mul2 (m n : M2 K) : numerical.Matrix2_Mul (gm2 m) (gm2 n) = gm2 (m.mul n) := by tie
+theorem add2 (m n : M2 K) : numerical.Matrix2_Add (gm2 m) (gm2 n) = gm2 (m.add n) := by tie
+theorem transpose2 (m : M2 K) : numerical.Matrix2_Transpose (gm2 m) = gm2 m.transpose := by tie
+theorem mulColumn2 (m : M2 K) (c : V2 K) : numerical.Matrix2_MulColumn (gm2 m) (gv2 c) = gv2 (m.mulColumn c) := by tie
+theorem inverse2 (m : M2 K) : numerical.Matrix2_Inverse (gm2 m) = gm2 m.inverse := by tie
 theorem mulColumnInv2 (m : M2 K) (c : V2 K) (d : K) :
-    numerical.Matrix2_MulColumnInv (gm2 m) (gv2 c) d = gv2 (m.mulColumnInv c d) := by
-  simp [numerical.Matrix2_MulColumnInv, numerical.Matrix2_MulColumn, numerical.Vec2_Scale, M2.mulColumnInv,
-    M2.mulColumn]
+    numerical.Matrix2_MulColumnInv (gm2 m) (gv2 c) d = gv2 (m.mulColumnInv c d) := by tie
 
-theorem det3 (m : M3 K) : numerical.Matrix3_Det (gm3 m) = m.det := rfl
-theorem mul3 (m n : M3 K) : numerical.Matrix3_Mul (gm3 m) (gm3 n) = gm3 (m.mul n) := rfl
-theorem transpose3 (m : M3 K) : numerical.Matrix3_Transpose (gm3 m) = gm3 m.transpose := rfl
-theorem mulColumn3 (m : M3 K) (c : V3 K) : numerical.Matrix3_MulColumn (gm3 m) (gv3 c) = gv3 (m.mulColumn c) := rfl
-theorem inverse3 (m : M3 K) : numerical.Matrix3_Inverse (gm3 m) = gm3 m.inverse := by
-  simp [numerical.Matrix3_Inverse, numerical.Matrix3_InvertInPlace, numerical.Matrix3_InvertInPlaceDet,
-    numerical.Matrix3_Scale, numerical.Matrix3_Det, M3.inverse, M3.invertDet, M3.scale, M3.adj, M3.det]
+theorem det3 (m : M3 K) : numerical.Matrix3_Det (gm3 m) = m.det := by tie
+theorem mul3 (m n : M3 K) : numerical.Matrix3_Mul (gm3 m) (gm3 n) = gm3 (m.mul n) := by tie
+theorem transpose3 (m : M3 K) : numerical.Matrix3_Transpose (gm3 m) = gm3 m.transpose := by tie
+theorem mulColumn3 (m : M3 K) (c : V3 K) : numerical.Matrix3_MulColumn (gm3 m) (gv3 c) = gv3 (m.mulColumn c) := by tie
+theorem inverse3 (m : M3 K) : numerical.Matrix3_Inverse (gm3 m) = gm3 m.inverse := by tie
 
-theorem det4 (x : M4 K) : numerical.Matrix4_Det (gm4 x) = x.det := rfl
-theorem mul4 (x y : M4 K) : numerical.Matrix4_Mul (gm4 x) (gm4 y) = gm4 (x.mul y) := rfl
-theorem transpose4 (x : M4 K) : numerical.Matrix4_Transpose (gm4 x) = gm4 x.transpose := rfl
+theorem det4 (x : M4 K) : numerical.Matrix4_Det (gm4 x) = x.det := by tie
+theorem mul4 (x y : M4 K) : numerical.Matrix4_Mul (gm4 x) (gm4 y) = gm4 (x.mul y) := by tie
+theorem transpose4 (x : M4 K) : numerical.Matrix4_Transpose (gm4 x) = gm4 x.transpose := by tie
+
+/-! ## `Matrix4.Scale`, `Matrix2/3.Scale`, Gram matrices — the vocabulary of the scale-covariance theorems -/
+
+theorem scale2 (m : M2 K) (s : K) : numerical.Matrix2_Scale (gm2 m) s = gm2 (m.scale s) := by tie
+theorem scale3 (m : M3 K) (s : K) : numerical.Matrix3_Scale (gm3 m) s = gm3 (m.scale s) := by tie
+theorem scale4 (x : M4 K) (s : K) : numerical.Matrix4_Scale (gm4 x) s = gm4 (x.scale s) := by tie
+theorem gram2 (m : M2 K) :
+    numerical.Matrix2_Mul (numerical.Matrix2_Transpose (gm2 m)) (gm2 m) = gm2 m.gram := by tie
+theorem gram3 (m : M3 K) :
+    numerical.Matrix3_Mul (numerical.Matrix3_Transpose (gm3 m)) (gm3 m) = gm3 m.gram := by tie
+theorem gram4 (x : M4 K) :
+    numerical.Matrix4_Mul (numerical.Matrix4_Transpose (gm4 x)) (gm4 x) = gm4 x.gram := by tie
+theorem add3 (m n : M3 K) : numerical.Matrix3_Add (gm3 m) (gm3 n) = gm3 (m.add n) := by tie
+theorem mulColumnInv3 (m : M3 K) (c : V3 K) (d : K) :
+    numerical.Matrix3_MulColumnInv (gm3 m) (gv3 c) d = gv3 (m.mulColumnInv c d) := by tie
+
+/-! ## `numerical.Vec2/3/4` (`numerical/vecs.go`) -/
+
+/-- `math.Sqrt` of the generated code read as the function parameter of the models. -/
+@[reducible] def sqrtOf (sqrtF : K → K) : M3d.GenPrelude.HasSqrt K := ⟨sqrtF⟩
+@[reducible] def gv4 (v : V4 K) : numerical.Vec4 K := ⟨v.x, v.y, v.z, v.w⟩
+
+theorem vec2_add (a b : V2 K) : numerical.Vec2_Add (gv2 a) (gv2 b) = gv2 (a.add b) := by tie
+theorem vec2_sub (a b : V2 K) : numerical.Vec2_Sub (gv2 a) (gv2 b) = gv2 (a.sub b) := by tie
+theorem vec2_scale (a : V2 K) (f : K) : numerical.Vec2_Scale (gv2 a) f = gv2 (a.scale f) := by tie
+theorem vec2_dot (a b : V2 K) : numerical.Vec2_Dot (gv2 a) (gv2 b) = a.dot b := by tie
+theorem vec2_sum (a : V2 K) : numerical.Vec2_Sum (gv2 a) = a.sum := by tie
+theorem vec2_distSquared (a b : V2 K) : numerical.Vec2_DistSquared (gv2 a) (gv2 b) = a.distSquared b := by tie
+theorem vec2_norm (sqrtF : K → K) (a : V2 K) :
+    (letI := sqrtOf sqrtF; numerical.Vec2_Norm (gv2 a)) = a.norm sqrtF := by tie
+theorem vec2_dist (sqrtF : K → K) (a b : V2 K) :
+    (letI := sqrtOf sqrtF; numerical.Vec2_Dist (gv2 a) (gv2 b)) = a.dist sqrtF b := by tie
+theorem vec2_normalize (sqrtF : K → K) (a : V2 K) :
+    (letI := sqrtOf sqrtF; numerical.Vec2_Normalize (gv2 a)) = gv2 (a.normalize sqrtF) := by tie
+theorem vec2_projectOut (sqrtF : K → K) (a b : V2 K) :
+    (letI := sqrtOf sqrtF; numerical.Vec2_ProjectOut (gv2 a) (gv2 b)) = gv2 (a.projectOut sqrtF b) := by tie
+
+theorem vec3_add (a b : V3 K) : numerical.Vec3_Add (gv3 a) (gv3 b) = gv3 (a.add b) := by tie
+theorem vec3_sub (a b : V3 K) : numerical.Vec3_Sub (gv3 a) (gv3 b) = gv3 (a.sub b) := by tie
+theorem vec3_scale (a : V3 K) (f : K) : numerical.Vec3_Scale (gv3 a) f = gv3 (a.scale f) := by tie
+theorem vec3_dot (a b : V3 K) : numerical.Vec3_Dot (gv3 a) (gv3 b) = a.dot b := by tie
+theorem vec3_cross (a b : V3 K) : numerical.Vec3_Cross (gv3 a) (gv3 b) = gv3 (a.cross b) := by tie
+theorem vec3_sum (a : V3 K) : numerical.Vec3_Sum (gv3 a) = a.sum := by tie
+theorem vec3_distSquared (a b : V3 K) : numerical.Vec3_DistSquared (gv3 a) (gv3 b) = a.distSquared b := by tie
+theorem vec3_norm (sqrtF : K → K) (a : V3 K) :
+    (letI := sqrtOf sqrtF; numerical.Vec3_Norm (gv3 a)) = a.norm sqrtF := by tie
+theorem vec3_dist (sqrtF : K → K) (a b : V3 K) :
+    (letI := sqrtOf sqrtF; numerical.Vec3_Dist (gv3 a) (gv3 b)) = a.dist sqrtF b := by tie
+theorem vec3_normalize (sqrtF : K → K) (a : V3 K) :
+    (letI := sqrtOf sqrtF; numerical.Vec3_Normalize (gv3 a)) = gv3 (a.normalize sqrtF) := by tie
+theorem vec3_projectOut (sqrtF : K → K) (a b : V3 K) :
+    (letI := sqrtOf sqrtF; numerical.Vec3_ProjectOut (gv3 a) (gv3 b)) = gv3 (a.projectOut sqrtF b) := by tie
+
+theorem vec4_add (a b : V4 K) : numerical.Vec4_Add (gv4 a) (gv4 b) = gv4 (a.add b) := by tie
+theorem vec4_sub (a b : V4 K) : numerical.Vec4_Sub (gv4 a) (gv4 b) = gv4 (a.sub b) := by tie
+theorem vec4_scale (a : V4 K) (f : K) : numerical.Vec4_Scale (gv4 a) f = gv4 (a.scale f) := by tie
+theorem vec4_dot (a b : V4 K) : numerical.Vec4_Dot (gv4 a) (gv4 b) = a.dot b := by tie
+theorem vec4_sum (a : V4 K) : numerical.Vec4_Sum (gv4 a) = a.sum := by tie
+theorem vec4_distSquared (a b : V4 K) : numerical.Vec4_DistSquared (gv4 a) (gv4 b) = a.distSquared b := by tie
+theorem vec4_norm (sqrtF : K → K) (a : V4 K) :
+    (letI := sqrtOf sqrtF; numerical.Vec4_Norm (gv4 a)) = a.norm sqrtF := by tie
+theorem vec4_dist (sqrtF : K → K) (a b : V4 K) :
+    (letI := sqrtOf sqrtF; numerical.Vec4_Dist (gv4 a) (gv4 b)) = a.dist sqrtF b := by tie
+theorem vec4_normalize (sqrtF : K → K) (a : V4 K) :
+    (letI := sqrtOf sqrtF; numerical.Vec4_Normalize (gv4 a)) = gv4 (a.normalize sqrtF) := by tie
+theorem vec4_projectOut (sqrtF : K → K) (a b : V4 K) :
+    (letI := sqrtOf sqrtF; numerical.Vec4_ProjectOut (gv4 a) (gv4 b)) = gv4 (a.projectOut sqrtF b) := by tie
 
 end M3d.KernelsTie.Numeric
